@@ -44,7 +44,7 @@ Inits012 == InitsOver({0, 1, 2})
 
 OldV == {0, 1, 2}
 NewV == {0, 1, 3, 4}
-CapsFew == {{"report-status"}, {"report-status", "atomic"}, AllCaps, {"atomic", "side-band-64k"}}
+CapsFew == {{"report-status"}, {"report-status", "atomic"}, AllCaps}
 CapsMC == {{}, {"report-status"}, {"report-status", "atomic"}}
 CapsRS == {{"report-status"}, {"report-status", "atomic"}}
 
@@ -54,9 +54,11 @@ WAll(x, cs, cps) == \E c \in cs, caps \in cps : \E v \in VarAll(c) : x = One(Wir
 WSome(x, cs, cps) == \E c \in cs, caps \in cps : \E v \in VarSome(c) : x = One(Wire(c, caps, v))
 
 \* ---- sequential case spaces (one pusher) ------------------------------------------------
-\* quick: one command x every capability set x every failure variant; two commands x four
-\* capability sets x three variants
-WireQuick(x) == WAll(x, Cmd1(OldV, NewV), SUBSET AllCaps) \/ WSome(x, Cmd2(OldV, NewV), CapsFew)
+\* quick: one command x every capability set x every failure variant; two commands (new values
+\* 0 / C / M) x three capability sets x three variants
+WireQuick(x) == WAll(x, Cmd1(OldV, NewV), SUBSET AllCaps) \/ WSome(x, Cmd2(OldV, {0, 3, 4}), CapsFew)
+\* negative controls: small, contains a stale command, a missing object and an atomic pair
+WireNeg(x) == WAll(x, Cmd1(OldV, NewV) \cup Cmd2({1, 2}, {3}), CapsRS)
 \* thorough: everything x everything
 WireFull(x) == WAll(x, Cmd1(OldV, NewV) \cup Cmd2(OldV, NewV), SUBSET AllCaps)
 \* model checking only: one capability set per behaviourally distinct class
